@@ -57,7 +57,8 @@ def _case(draw):
     case = {
         "kind": "synthetic", "nx": nx, "ny": ny, "nlev": nlev, "names": names, "timestamps": ts, "float32": f32,
         "dx": draw(gen.logfl(0.1, 100.0)), "dy": draw(gen.logfl(0.1, 100.0)),
-        "zlev": sorted(draw(st.lists(gen.fl(0.01, 100.0), min_size=max(nlev, 1), max_size=max(nlev, 1), unique=True))),
+        # heights in the order the levels were requested: ascending or not
+        "zlev": draw(st.lists(gen.fl(0.01, 100.0), min_size=max(nlev, 1), max_size=max(nlev, 1), unique=True)),
         "towers": [[draw(gen.fl(-60.0, 60.0)), draw(gen.fl(-180.0, 180.0)), draw(gen.fl(1.0, 50.0))] for _ in range(ntow)],
         "z0forcing": draw(st.booleans()),
         "met": [[draw(gen.fl(0.05, 1.0)), draw(gen.fl(-500.0, 500.0)), draw(gen.fl(0.1, 20.0)), draw(gen.fl(0.0, 360.0))]
@@ -85,7 +86,7 @@ def _config(names, towers, z0forcing, met, ts, nx, ny, dx, dy, three_d=False, pr
     dom = {"nx": nx, "ny": ny, "xmax": nx * dx, "ymax": ny * dy, "nz": 3, "modes": [4, 4], "halo": 0.0,
            "ref_lat": 0.0, "ref_lon": 0.0}
     if three_d:
-        dom["output_levels"] = [1, 3]
+        dom["output_levels"] = [3, 1, 2]  # requested order is not ascending
     return parse_config_dict({
         "domain": dom,
         "towers": [{"name": n, "lat": t[0], "lon": t[1], "z_m": t[2]} for n, t in zip(names, towers)],
